@@ -16,6 +16,11 @@ Fr = fractions.Fraction
 
 def gen(chk, mpmath, rng):
     mp = mpmath.mp
+    for kf in [k for k in chk.known if k.get("status") == "known" and "rep" in k]:
+        rep = kf["rep"]; p = rep["p"]; mp.prec = p
+        got = mp.quadgl(lambda x: x ** rep["k"] * mp.exp(-x), [0, mp.inf])
+        yield ex.relabs_close(got, ex.seqn("fact", rep["k"]), 10, p), {"pinned": kf["key"], "key": "analytic/x^k e^-ax/quadgl/p>=200", "k": rep["k"], "p": p, "what": "pinned representative"}
+        mp.prec = 53
     for i in range(chk.pick(260, 8000)):
         p = rng.choice([30, 53, 53, 80, 120, rng.randint(30, 300)])
         mp.prec = p
@@ -26,20 +31,26 @@ def gen(chk, mpmath, rng):
         f = lambda x: sum((mp.mpf(c.numerator) / c.denominator) * x ** k for k, c in enumerate(cs))
         kind = rng.random()
         try:
-            if rng.random() < 0.18:
+            if rng.random() < 0.3:
                 # analytic non-polynomial integrands with RATIONAL integrals, at higher precisions as well (these need the higher
                 # quadrature degrees): gamma-type integrals on [0, inf], algebraic tails on [1, inf], endpoint singularities on [0, 1]
                 p = rng.choice([53, 120, 150, 200, 300, 500]); mp.prec = p
-                which = rng.choice(["x^k e^-ax", "x^-s tail", "x^(m/n)", "x^k log x", "1/(x+c)^k tail"])
+                which = rng.choice(["x^k e^-ax", "x^k e^-ax", "x^(2j+1) e^-x^2", "x^(2j+1) e^-x^2", "x^-s tail", "x^(m/n)", "x^k log x", "1/(x+c)^k tail", "1/(x+c)^k finite", "1/(x+c)^k finite"])
                 # Gauss-Legendre is documented for smooth integrands only: algebraic / logarithmic endpoint behaviour (also at
                 # infinity, after the interval transformation) is left to tanh-sinh
-                meth = rng.choice(["quad", "quadts"]) if which in ("x^(m/n)", "x^k log x", "x^-s tail") else rng.choice(["quad", "quadts", "quadgl"])
+                # Exponentially decaying integrands on [0, inf] are in the statement for Gauss-Legendre as well (known finding at p >= 200).
+                meth = rng.choice(["quad", "quadts", "quadgl"]) if which in ("x^k e^-ax", "x^(2j+1) e^-x^2") else rng.choice(["quad", "quadts"])
                 k = rng.randint(0, 6)
                 if which == "x^k e^-ax":
                     aq = Fr(rng.randint(1, 6), rng.choice([1, 2]))
                     aa = mp.mpf(aq.numerator) / aq.denominator
                     got = getattr(mp, meth)(lambda x: x ** k * mp.exp(-aa * x), [0, mp.inf])
                     exact = ex.div(ex.seqn("fact", k), ex.powi(ex.Qf(aq), k + 1))
+                elif which == "x^(2j+1) e^-x^2":
+                    # Gaussian-type integrands with rational integrals: int_0^inf x^(2j+1) exp(-x^2) dx = j! / 2
+                    j = rng.randint(0, 4)
+                    got = getattr(mp, meth)(lambda x: x ** (2 * j + 1) * mp.exp(-x * x), [0, mp.inf])
+                    exact = ex.div(ex.seqn("fact", j), 2)
                 elif which == "x^-s tail":
                     sq = Fr(rng.randint(5, 12), 2)          # x^-3/2 decays too slowly to count as well-behaved (observed error ~ sqrt(eps) on the unchanged tree)
                     ss = mp.mpf(sq.numerator) / sq.denominator
@@ -53,11 +64,18 @@ def gen(chk, mpmath, rng):
                 elif which == "x^k log x":
                     got = getattr(mp, meth)(lambda x: x ** k * mp.log(x), [0, 1])
                     exact = ex.neg(ex.div(1, ex.sq(ex.Z(k + 1))))
+                elif which == "1/(x+c)^k finite":
+                    # smooth on a finite interval: all three methods, Gauss-Legendre included
+                    meth = rng.choice(["quad", "quadts", "quadgl"])
+                    cq = Fr(rng.randint(1, 5)); kk = rng.randint(2, 6); bq = Fr(rng.randint(1, 12), rng.choice([1, 2]))
+                    got = getattr(mp, meth)(lambda x: 1 / (x + cq.numerator) ** kk, [0, mp.mpf(bq.numerator) / bq.denominator])
+                    exact = ex.div(ex.sub(ex.powi(ex.Qf(cq), 1 - kk), ex.powi(ex.Qf(bq + cq), 1 - kk)), kk - 1)
                 else:
                     cq = Fr(rng.randint(1, 5)); kk = rng.randint(2, 5)
                     got = getattr(mp, meth)(lambda x: 1 / (x + cq.numerator) ** kk, [0, mp.inf])
                     exact = ex.div(1, ex.mul(kk - 1, ex.powi(ex.Qf(cq), kk - 1)))
-                yield ex.relabs_close(got, exact, 10, p), {"key": "analytic/%s/%s" % (which, meth), "k": k, "p": p, "what": "integral with a rational closed form differs from it by more than 2^(10-p)"}
+                band = "/p>=200" if meth == "quadgl" and which in ("x^k e^-ax", "x^(2j+1) e^-x^2") and p >= 200 else ""
+                yield ex.relabs_close(got, exact, 10, p), {"key": "analytic/%s/%s%s" % (which, meth, band), "k": k, "p": p, "what": "integral with a rational closed form differs from it by more than 2^(10-p)"}
                 continue
             if kind < 0.45:
                 meth = rng.choice(["quad", "quadts", "quadgl"])
